@@ -546,7 +546,7 @@ fn assumptions(check: &str) -> Vec<String> {
     match check {
         "C03" | "C14" => v.push("process-kill model: the directory holds exactly the effects of a prefix of the recorded file-system calls".into()),
         "C09" => v.push("power-loss model as stated in the property: per file any suffix after its last completed fsync may be lost; creations and removals are persistent".into()),
-        "C20" => v.push("one transient failure per run at a write/create/fsync/unlink call (thorough tier adds read-side calls)".into()),
+        "C20" => v.push("one transient failure per evaluation, at every write/create/fsync/unlink call of the workload in turn; a third (quick) or half (thorough) of the workloads also enumerate read-side calls (read, pread, fstat, mmap, opendir, open for reading), where only the truthfulness clauses are demanded, not the error report".into()),
         _ => {}
     }
     v
